@@ -26,6 +26,8 @@ static void canon(qvector_t *v, char *out) {
 }
 static void observe(qvector_t *v, const model_t *m, const char *after) {
     int n = m->n;
+    errno = 0; if (v->addlast(v, NULL) || errno != EINVAL) vc_viol("array:einval", "addlast(NULL) not refused with EINVAL");
+    errno = 0; if (v->addat(v, 0, NULL) || errno != EINVAL) vc_viol("array:einval", "addat(NULL) not refused with EINVAL");
     if ((int)v->size(v) != n) vc_viol("array:size", "after %s: size() = %zu, expected %d", after, v->size(v), n);
     if (v->max < v->num) vc_viol("array:capacity", "after %s: capacity %zu below element count %zu", after, v->max, v->num);
     for (int i = -n - 2; i <= n + 2; i++) for (int nm = 0; nm < 2; nm++) {
@@ -56,7 +58,6 @@ static void observe(qvector_t *v, const model_t *m, const char *after) {
         }
         if (bad || c != n) vc_viol("array:walk", "after %s: getnext walk (newmem=%d) returned %d elements, expected the %d in order", after, nm, c, n);
     }
-    errno = 0; if (v->addlast(v, NULL) || errno != EINVAL) vc_viol("array:einval", "addlast(NULL) not refused with EINVAL");
 }
 static void m_insert(model_t *m, int pos, int e) { memmove(m->e + pos + 1, m->e + pos, sizeof(int) * (m->n - pos)); m->e[pos] = e; m->n++; }
 static void m_delete(model_t *m, int pos) { memmove(m->e + pos, m->e + pos + 1, sizeof(int) * (m->n - pos - 1)); m->n--; }
